@@ -2,6 +2,8 @@
 from __future__ import annotations
 
 from ..evalr import Obj
+import ast
+
 from ..spec import CM, cell, returns, raises, unmodelled_text, pc_text
 from ..terms import (App, Const, Num, Sym, Tup, NAN, add, sub, mul, div, neg, same, show, to_poly, mk_num, Poly, subst,
                      atoms_of, cmp0)
@@ -9,7 +11,7 @@ from ..simp import mk_app, norm_fn
 
 LEVEL = "proof"
 MET = "score_analysis.metrics."
-M = Sym("M", ("param", "array", "notnone"))
+M = Sym("M", ("param", "array", "notnone", "intcount"))
 A = Sym("alpha", ("param_scalar", "float", "notnone"))
 
 
@@ -87,11 +89,37 @@ def csum(c, names):
 def eval_fn(ctx, chk, q, args, kwargs=None):
     outs = ctx.explore(lambda: ctx.ev.call(ctx.fn(q), list(args), dict(kwargs or {})), chk)
     rets = returns(outs)
+    int_products(ctx, chk, q, outs)
     if len(rets) != 1 or raises(outs):
         return None, "%d return / %d raise paths" % (len(rets), len(raises(outs)))
     if rets[0].unmodelled:
         return None, "unmodelled: " + unmodelled_text(rets[0])
     return rets[0].value, None
+
+
+_INT_SEEN = {}
+
+
+def int_products(ctx, chk, q, outs):
+    """R04.7: count arrays arrive in the caller's fixed-width integer dtype (confusion matrices are integer arrays); a product or power of
+    degree >= 3 in the counts evaluated BEFORE the conversion to float (true division) wraps around once a count exceeds 2**21 (~2.1e6).
+    The shipped formulas divide first (p = count / nobs) and multiply floats."""
+    seen = _INT_SEEN.setdefault(id(chk), set())
+    evs = [e for o in outs for e in o.events if e["kind"] == "int_product"]
+    for e in evs:
+        key = (q, e["text"])
+        if key in seen:
+            continue
+        seen.add(key)
+        node = e.get("node")
+        home = next((f for f in ctx.db.all_functions() if any(n is node for n in ast.walk(f.node))), None)
+        where = "%s:%s" % (home.module.relpath, node.lineno) if home is not None else ctx.where(q)
+        chk.violation("R04.7", home.qualname if home is not None else q, "int-product:" + e["text"][:60], "`%s` is a degree-%d product of caller counts evaluated in their integer dtype" % (e["text"][:80], e["degree"]),
+                      "counts are converted to float (true division) before products of degree >= 3 (int64 wraps at 2**21 per factor of a cube)",
+                      where)
+    if not evs and (q, None) not in seen:
+        seen.add((q, None))
+        chk.hold("R04.7", q.split(".")[-1], "no product of degree >= 3 in the counts is evaluated in integer dtype", nontrivial=False)
 
 
 def devalue(v):
@@ -210,7 +238,7 @@ def run(ctx, chk, tier):
         else:
             chk.violation("R04.3", MET + name, "range", "(%s)/(%s)" % (show(num), show(den)), "numerator a sub-sum of the denominator", ctx.where(MET + name))
     # ---- R04.4 binomial_ci and the interval wrappers
-    Cn, Nn = Sym("count", ("param", "array", "notnone")), Sym("nobs", ("param", "array", "notnone"))
+    Cn, Nn = Sym("count", ("param", "array", "notnone", "intcount")), Sym("nobs", ("param", "array", "notnone", "intcount"))
     q = "score_analysis.utils.binomial_ci"
     v, err = eval_fn(ctx, chk, q, [Cn, Nn], {"alpha": A})
     if v is None:
